@@ -20,7 +20,7 @@ RULE = (
 )
 ASSUMPTIONS = ["class comparison bounded by N=6 (quick) / 7 (thorough, classical)", "oracle: vf/oracle/mesh.py region semantics for mesh-in-mesh containment"]
 REQUIRED = ["calls.Basis.__new__", "calls.MeshBasis.__new__", "pruned.classical", "pruned.mesh", "mixed.subclasses", "orders.compared",
-            "from_string.checked", "av_identity.checked"]
+            "from_string.checked", "av_identity.checked", "identity_history.checked"]
 MIN_NONTRIVIAL = 100
 CTX = None
 MON = None
@@ -165,7 +165,30 @@ def chk_from_string(ctx, perms, seps):
         CASE[0] = None
 
 
-CHECKS = {"collection": chk_collection, "from_string": chk_from_string}
+def chk_identity_history(ctx, raw_enc, nothers):
+    """Equal bases denote the same class object also after many other classes were created in between
+    (only clear_cache is documented to forget classes)."""
+    CASE[0] = ("identity", [raw_enc, nothers])
+    try:
+        patts = [dec(q) for q in raw_enc]
+        first = Av(list(patts))
+        keep = []
+        pool = [Perm(t) for k in range(2, 6) for t in itertools.permutations(range(k))]
+        for i in range(nothers):
+            a, b = pool[i % len(pool)], pool[(7 * i + 3) % len(pool)]
+            keep.append(Av([a, b] if i >= len(pool) else [a]))
+        again = [Av(list(patts)), Av(list(reversed(patts))), Av.from_iterable(tuple(patts)), Av(first.basis)]
+        ctx.ev()
+        ctx.count("identity_history.checked")
+        if not all(x is first for x in again):
+            report(f"after creating {nothers} other classes, Av(equal basis) is a different object than the one still held")
+        if any(Av(k.basis) is not k for k in keep[:: max(1, nothers // 20)]):
+            report("a class created earlier in the history is no longer returned for its own basis")
+    finally:
+        CASE[0] = None
+
+
+CHECKS = {"collection": chk_collection, "from_string": chk_from_string, "identity": chk_identity_history}
 
 
 def rand_patt(rng, kmax=2):
@@ -202,6 +225,8 @@ def run(ctx, spec):
             if rng.random() < 0.3:
                 chk_from_string(ctx, col, rng.choice([["_"], [":", ", "], [" "], ["abc", "-"], ["\n"]]))
         ctx.note("exhaustive: every multiset of <=3 patterns from S_1..S_3 in every order")
+        chk_identity_history(ctx, rng.choice(spec["cols"]), rng.choice([100, 300, 700]))
+        chk_identity_history(ctx, [[0, 2, 1], {"cls": "MeshPatt", "p": [0, 1], "s": [[1, 1]]}], 400)
         # longer classical collections with superpatterns
         for _ in range(60):
             col = [rng.sample(range(k), k) for k in (rng.randint(1, 5) for _ in range(rng.randint(2, 5)))]
